@@ -373,11 +373,108 @@ def rule_r4(prog, res):
                     'validation')
 
 
+# ------------------------------------------------------------------- R5
+def origins(f, roots):
+    """name -> set of root parameters its value is derived from (flow
+    insensitive closure over assignments and loop targets)."""
+    org = {r: {r} for r in roots}
+    changed = True
+    while changed:
+        changed = False
+        for n in walk_no_defs(f.node):
+            if isinstance(n, ast.Assign):
+                tg = [t.id for tt in n.targets for t in ast.walk(tt)
+                      if isinstance(t, ast.Name)]
+                val = n.value
+            elif isinstance(n, ast.For):
+                tg = [t.id for t in ast.walk(n.target)
+                      if isinstance(t, ast.Name)]
+                val = n.iter
+            else:
+                continue
+            src = set()
+            for x in ast.walk(val):
+                if isinstance(x, ast.Name) and x.id in org:
+                    src |= org[x.id]
+            for t in tg:
+                if not src <= org.get(t, set()):
+                    org.setdefault(t, set()).update(src)
+                    changed = True
+    return org
+
+
+def rule_r5(prog, res):
+    res.rule('R5', 'the subclass helper answers True only through '
+             'issubclass(<candidate>, <declared>) in that order')
+    c = prog.cls('spyne.protocol._base:ProtocolMixin')
+    f = c.methods.get('issubclass')
+    if f is None:
+        raise AnalysisError('ProtocolMixin.issubclass', 'not found')
+    params = [p for p in f.params() if p != 'self']
+    if len(params) != 2:
+        raise AnalysisError('ProtocolMixin.issubclass', 'expected two '
+                            'parameters, got %r' % params)
+    cand, decl = params
+    org = origins(f, params)
+    n = 0
+    for call in calls_in(f.node):
+        if not (isinstance(call.func, ast.Name) and
+                call.func.id == 'issubclass' and len(call.args) == 2):
+            continue
+        n += 1
+        a = {o for x in ast.walk(call.args[0]) if isinstance(x, ast.Name)
+             for o in org.get(x.id, ())}
+        b = {o for x in ast.walk(call.args[1]) if isinstance(x, ast.Name)
+             for o in org.get(x.id, ())}
+        ok = a == {cand} and b == {decl}
+        where = '%s:%d' % (f.module.relpath, call.lineno)
+        res.ob('R5', where, 'ProtocolMixin.issubclass: %s compares a value '
+               'derived from %s against one derived from %s' % (
+                   unparse(call)[:60], sorted(a), sorted(b)),
+               'ok' if ok else 'VIOLATED', nontrivial=True)
+        if not ok:
+            res.finding('R5', 'ProtocolMixin.issubclass|%s' % unparse(call),
+                        where, 'the helper every reader trusts for its '
+                        'subclass guard evaluates %s, whose first argument '
+                        'derives from %s and second from %s: it must test '
+                        'the candidate (%s) against the declared class (%s); '
+                        'as written siblings or ancestors of the declared '
+                        'class are accepted' % (
+                            unparse(call), sorted(a), sorted(b), cand, decl))
+    # True may only be returned as the value of such a call
+    for r in walk_no_defs(f.node):
+        if isinstance(r, ast.Return) and isinstance(
+                r.value, ast.Constant) and r.value.value is True:
+            g = flatten_guards(guards_at(r, stop=f.node))
+            ok = any(pol and isinstance(e, ast.Call) and isinstance(
+                e.func, ast.Name) and e.func.id == 'issubclass'
+                for e, pol in g)
+            where = '%s:%d' % (f.module.relpath, r.lineno)
+            res.ob('R5', where, 'ProtocolMixin.issubclass: return True under '
+                   '%s' % [unparse(e)[:40] for e, _ in g],
+                   'ok' if ok else 'VIOLATED')
+            if not ok:
+                res.finding('R5', 'ProtocolMixin.issubclass|return-True',
+                            where, 'the helper returns True without a '
+                            'builtin issubclass test on that path')
+    res.floor('R5', 'builtin issubclass calls in the helper', n, 1)
+
+
+def rule_r6(prog, res):
+    from . import c02
+    from ..report import Result
+    res.share('R6', 'only Integer/Double/Boolean values pass a dict '
+              'document unconverted (C02-R3)', 'C02', c02.rule_r3, prog,
+              Result)
+
+
 def run(prog, res, tier):
     res.run_rule(rule_r1, prog, res)
     res.run_rule(rule_r2, prog, res)
     res.run_rule(rule_r3, prog, res)
     res.run_rule(rule_r4, prog, res)
+    res.run_rule(rule_r5, prog, res)
+    res.run_rule(rule_r6, prog, res)
 
 
 _X = 'spyne/protocol/xml.py'
@@ -387,6 +484,20 @@ _Y = 'spyne/protocol/yaml.py'
 _C = 'spyne/model/complex.py'
 
 MUTANTS = [
+    Mutant('subclass-helper-inverted', 'R5', 'fire', 'spyne/protocol/_base.py',
+           in_func('ProtocolMixin.issubclass',
+                   r"return issubclass\(sub if suborig is None else suborig,"
+                   r"\s*cls if clsorig is None else clsorig\)",
+                   "return issubclass(cls if clsorig is None else clsorig, "
+                   "sub if suborig is None else suborig)", regex=True),
+           'ProtocolMixin.issubclass'),
+    Mutant('subclass-helper-locals', 'R5', 'benign', 'spyne/protocol/_base.py',
+           in_func('ProtocolMixin.issubclass',
+                   r"return issubclass\(sub if suborig is None else suborig,"
+                   r"\s*cls if clsorig is None else clsorig\)",
+                   "a = sub if suborig is None else suborig\n"
+                   "        b = cls if clsorig is None else clsorig\n"
+                   "        return issubclass(a, b)", regex=True), None),
     Mutant('xsi-type-unguarded', 'R1', 'fire', _X,
            in_func('XmlDocument.from_element',
                    r"                if not self\.issubclass\(newclass, cls\):"
